@@ -133,6 +133,10 @@ def scalar_patch(ctx, k, kind):
     if general:
         mc = G.quad_mesh(rng, style="distorted") if kind == "quad" else G.hex_mesh(rng, style=str(rng.choice(["extruded", "jiggled"])))
         ctx.reached("non-affine-degree-one")
+    elif name.startswith("ElementQuadP(") and deg >= 3:
+        # ElementQuadP(p>=3) is not conforming on cyclically shifted cells: that mechanism is C03's recorded finding and
+        # is not re-reported here; the patch test uses cells in the constructor's own local order
+        mc = G.quad_mesh(rng, style=str(rng.choice(["tensor", "sheared"])), renum=False)
     else:
         mc = affine_mesh(ctx, rng, kind, k)
     mesh = mc.mesh
@@ -386,11 +390,11 @@ def fam(fn, kind):
 
 
 FAMILIES = []
-for kd, q, th in (("line", 10, 200), ("tri", 24, 720), ("quad", 16, 480), ("tet", 12, 240), ("hex", 9, 180), ("wedge", 3, 40)):
+for kd, q, th in (("line", 20, 400), ("tri", 60, 1800), ("quad", 48, 1200), ("tet", 24, 480), ("hex", 18, 360), ("wedge", 4, 60)):
     FAMILIES.append(Family("scalar-" + kd, fam(scalar_patch, kd), q, th, budget={"quick": 30, "thorough": 600}))
-for kd, q, th in (("tri", 6, 160), ("quad", 4, 120), ("tet", 4, 80), ("hex", 3, 40)):
+for kd, q, th in (("tri", 12, 320), ("quad", 8, 240), ("tet", 6, 120), ("hex", 4, 60)):
     FAMILIES.append(Family("elasticity-" + kd, fam(elasticity_patch, kd), q, th, budget={"quick": 25, "thorough": 600}))
 for kd in ("line", "tri", "quad", "tet", "hex", "wedge"):
     n = (lambda c, kd=kd: len([r for r in EL.all_for_kind(kd) if not r.skeleton and r.mesh_req == "any"
-                                 and not r.name.startswith("Composite(")]) * (1 if c.tier == "quick" else 18))
+                                 and not r.name.startswith("Composite(")]) * (3 if c.tier == "quick" else 30))
     FAMILIES.append(Family("projection-" + kd, fam(projection, kd), n, n, budget={"quick": 25, "thorough": 600}))
